@@ -200,4 +200,5 @@ RULES = [
     ("R-C01-3", "history loop: expired frames are neither delivered nor counted; only delivered frames count; sends only below the limit", r3),
     ("R-C01-4", "the raw iterator has no consumer without an expiry guard", r4),
     ("R-C01-5", "append assigns the id before any use of the frame; get / insert agree on the primary key encoding", r5),
+    ("R-C01-6", "a frame counts as expired exactly when now >= created + ttl; an id ahead of the local clock is not expired (shared with R-C08-4)", lambda run: __import__("rules.C08", fromlist=["x"]).r4(run)),
 ]
